@@ -196,13 +196,20 @@ func c15Tables(r *RNG, n int) []TableSpec {
 	return out
 }
 
+func c15Words(ws []string) string {
+	if len(ws) == 0 {
+		return "[]%uint63"
+	}
+	return "[" + strings.Join(ws, ";") + "]%uint63"
+}
+
 func init() {
 	register(&Prop{
 		ID:       "C15",
 		Imports:  "From Tab Require Import Run.Glue Run.C15Run.",
-		CaseType: "(list (list N) * list (nat * nat * aobs))",
-		CaseFn:   "C15_case",
-		ModelFn:  "C15_model",
+		CaseType: "(list (list N) * list int * list (list N))",
+		CaseFn:   "C15_wcase",
+		ModelFn:  "C15_wmodel",
 		Rule: "fault enumeration: for each table (8 fixed shapes covering header, delimiter row, body, padding columns, separators in every position, zero-cell rows, multi-line cells, no header, empty header; plus random tables) x 15 targets " +
 			"(csv/json/markdown/html/texttable in 4 decorations incl. boxless, through the wrapper method, the package-level RenderTo and auto.RenderTo) the fault-free run is recorded as its list of Write payloads, then RenderTo runs against a scripted writer for EVERY call index k in 0..#writes (the last one is past the end: no fault) " +
 			"x 4 modes (fails from k on; fails only at k; partial write of half the payload + error at k then keeps failing; partial only at k); a case is one (table, target) with all its scripted runs; non-trivial when the fault-free render succeeds and makes at least one write; tables whose fault-free render errs or panics are counted and skipped (that is C09's concern)",
@@ -216,6 +223,19 @@ func init() {
 			for _, ts := range c15Tables(r, n) {
 				for _, tg := range c15Targets {
 					out = append(out, mustJSON(C15Spec{Table: ts, Target: tg}))
+				}
+			}
+			// sizes at which buffering layers change behaviour: one cell beyond 4 KiB, and a table of 120 rows
+			{
+				h := []ItemSpec{Str("k"), Str("v")}
+				big := TableSpec{Header: &h, Rows: []RowSpec{{Cells: []ItemSpec{Str("a"), Str(strings.Repeat("x", 5000))}}, {Cells: []ItemSpec{Str(strings.Repeat("\u65e5", 1500)), Str("b")}}}}
+				long := TableSpec{Header: &h}
+				for i := 0; i < 120; i++ {
+					long.Rows = append(long.Rows, RowSpec{Cells: []ItemSpec{Str(fmt.Sprintf("r%d", i)), Str("v")}})
+				}
+				for _, tg := range []C15Target{{"csv", "", 0}, {"json", "", 0}, {"json", "", 1}, {"markdown", "", 0}, {"html", "", 0}, {"html", "", 1}, {"text", "", 0}, {"text", "none", 0}} {
+					out = append(out, mustJSON(C15Spec{Table: big, Target: tg}))
+					out = append(out, mustJSON(C15Spec{Table: long, Target: tg}))
 				}
 			}
 			return out
@@ -257,11 +277,11 @@ func init() {
 					kind = "faultfree-panic"
 				}
 				desc["skipped"] = kind
-				return CaseOut{Coq: "([], [])", Desc: desc, Size: sp.Table.Size(), Tags: append(tags, "skipped="+kind),
+				return CaseOut{Coq: "([], []%uint63, [])", Desc: desc, Size: sp.Table.Size(), Tags: append(tags, "skipped="+kind),
 					Key: string(spec), Nontrivial: false}
 			}
 			full := bytes.Join(w0.chunks, nil)
-			var runs []string
+			var runs, side []string
 			var robs []runObs
 			sig := ""
 			for k := 0; k <= len(w0.chunks); k++ {
@@ -271,15 +291,19 @@ func init() {
 					}
 					w, err, pan := one(mode, k)
 					ro := runObs{Mode: mode, K: k, Err: err != nil, Panic: pan, Accepted: fmt.Sprintf("%q", w.acc), Calls: w.calls}
-					var a string
+					word := uint64(mode) | uint64(k)<<6
+					if err != nil {
+						word |= 1 << 3
+					}
 					switch {
 					case pan != "":
-						a = "APanic"
+						word |= 2 << 4
 						ro.Verdict = "panic"
 					case bytes.HasPrefix(full, w.acc):
-						a = fmt.Sprintf("(AP %s %s)", cqBool(err != nil), cqNat(len(w.acc)))
+						word |= uint64(len(w.acc)) << 26
 					default:
-						a = fmt.Sprintf("(AB %s %s)", cqBool(err != nil), cqBytes(w.acc))
+						word |= 1 << 4
+						side = append(side, cqBytes(w.acc))
 						ro.Verdict = "accepted-not-a-prefix"
 					}
 					faultWithin := k < len(w0.chunks)
@@ -295,7 +319,7 @@ func init() {
 					if ro.Verdict != "" || len(robs) < 3 {
 						robs = append(robs, ro)
 					}
-					runs = append(runs, fmt.Sprintf("(%s, %s, %s)", cqNat(mode), cqNat(k), a))
+					runs = append(runs, fmt.Sprint(word))
 				}
 			}
 			chunks := make([]string, len(w0.chunks))
@@ -308,7 +332,7 @@ func init() {
 			desc["sig"] = sig
 			tags = append(tags, fmt.Sprintf("writes=%d", min(len(w0.chunks)/10*10, 60)))
 			return CaseOut{
-				Coq:        cqPair(cqList(chunks), cqList(runs)),
+				Coq:        fmt.Sprintf("(%s, %s, %s)", cqList(chunks), c15Words(runs), cqList(side)),
 				Desc:       desc,
 				Size:       sp.Table.Size()*10 + len(runs),
 				Tags:       tags,
